@@ -21,6 +21,7 @@ Decided here:
   C02-R5  scope pairing (shared with C04-R1);
   C02-R6  a value computed inside a restricted scope is neither stored nor served under a key that does not name the
           restriction (cache admission guard, shared with C04-R3).
+          wild-card sets cannot be recomputed: their cache entries are never evicted and every hit is counted once (shared with C04-R5).
 Not decided: the README equivalences as set equalities."""
 import bounded as bd
 import c03
